@@ -6,6 +6,8 @@
                          AccountRLP / Storage of every key of the universe
          (6 slot root)   create a HistoricReader for root and keep it in [slot]
          (7 slot)        read every key of the universe through the kept reader
+         (8)             one index-pruner pass with the real tail, then the reads of op 5 at
+                         the oldest retained root ((1) when no history is retained)
    obs   op 5 -> one item per root: (1) refused, or (0 r ...) with r = v | (-1) refused
          op 6 -> (0) created / (1) refused;  op 7 -> (r ...) or (1) when the slot is empty
          op 0..4 additionally report the index metadata: (obs (meta) | ()) *)
@@ -56,6 +58,18 @@ Definition step18 (univ : list key) (stl : db * list (N * hreader)) (op : sx)
           | None => Some ((st, slots), SL [SI 1%Z])
           end
       | None => None
+      end
+  | SL [SI 8%Z] =>
+      (* index pruner pass (most aggressive cut allowed: the first retained history, for
+         every key), then every key at the oldest retained root *)
+      let st1 :=
+        match ix st with
+        | Some x => set_ix st (Some (fold_left (fun x k => ix_prune_key (fr st) x k (fr_tail (fr st) + 1)) univ x))
+        | None => st
+        end in
+      match fr_read (fr st1) (fr_tail (fr st1) + 1) with
+      | Some h => Some ((st1, slots), read_root univ st1 (h_parent h))
+      | None => Some ((st1, slots), SL [SI 1%Z])
       end
   | _ =>
       match step univ st op with
